@@ -207,6 +207,38 @@ CHECKS = {
             "thread is not starved for 1 s; '?' cells accept refusal or "
             "effect. 9 known-finding signatures (3 race families without a "
             "small safe repair) in known_findings.json."),
+    "C06": ("exploration",
+            "exhaustive table of prior simulator histories x stochastic "
+            "models x clocks; differential oracle: the replication after the "
+            "history vs the same replication on a brand-new simulator",
+            "coopsched",
+            "18 prior histories (never started, initialised once/twice, "
+            "stepped 1/2/4, stopped by a handler at event 1/3, paused by a "
+            "handler fault, bounded runs, ended with a shorter/equal/longer "
+            "previous replication, end_replication, cleanup, stop then step, "
+            "initialize from a handler) x model variants creating all four "
+            "simulation statistics and a seeded stream in construct_model "
+            "(with a MAX_PRIORITY event at the warm-up instant and events "
+            "pending beyond the end) x warm-ups x 3 clocks; digest = event "
+            "log, statistics (hex), notification stream, pending events and "
+            "clock after initialize, registered keys, one WARMUP.",
+            "Sequential scheduler mode; initialize racing a run is in C04b."),
+    "C11": ("exploration",
+            "exhaustive enumeration of observation schedules x statistic x "
+            "feeding route x warm-up x run mode on the real simulator vs "
+            "reference DEVS order + ordinary statistics + exact integrals",
+            "progmc+coopsched",
+            "All schedules of <=2 (thorough 3) observations over 5 times "
+            "(before/at/after warm-up, at the end) x priorities {1,5,10} x "
+            "values, for SimCounter/SimTally/SimWeightedTally/SimPersistent "
+            "fed directly, via the default data event and via listen_to, "
+            "warm-up 0 or 2, uninterrupted / stepped / handler-paused, float "
+            "and Duration clocks; getters bit-identical to an ordinary "
+            "statistic fed the post-warm-up observations, exact time "
+            "integral for the persistent, closed at the end, retrievable from "
+            "the model, every published value equals the getter.",
+            "Persistent n/min/max not compared; ordinary statistics "
+            "themselves are C09/C10."),
 }
 
 NOT_YET = {}
